@@ -54,7 +54,7 @@ def crash_states(old: dict, new: dict, first: dict | None = None):
         assert kind == "ok", val
         nodes.clear()
         nodes.update(copy.deepcopy(new))
-    base = vfs.snapshot()
+    base = vfs.state()
     vfs.log.clear()
     if saver is None:
         kind, val, _ = pers.save_nodes(new, vfs)
@@ -63,8 +63,8 @@ def crash_states(old: dict, new: dict, first: dict | None = None):
     assert kind == "ok", val
     ops = list(vfs.log)
     final = vfs.snapshot()
-    files = dict(base)
-    yield ("before-any-op", "before the first file operation", dict(files), ops)
+    st = fsshim.VFS.copy_state(base)
+    yield ("before-any-op", "before the first file operation", fsshim.VFS.files_of(st), ops)
     for i, op in enumerate(ops):
         if op[0] == "write":
             data = op[3]
@@ -74,12 +74,12 @@ def crash_states(old: dict, new: dict, first: dict | None = None):
             else:
                 cuts = sorted(set(range(1, 65)) | set(range(n - 64, n)) | set(range(65, n - 64, 97)))
             for k in cuts:
-                f2 = dict(files)
-                fsshim.VFS.apply(f2, op, upto=k)
-                yield ("inside-write", f"inside raw write #{i} after {k} of {n} bytes", f2, ops)
-        fsshim.VFS.apply(files, op)
-        yield (f"after-{op[0]}", f"after raw operation #{i} {op[0]}", dict(files), ops)
-    if files != final:
+                s2 = fsshim.VFS.copy_state(st)
+                fsshim.VFS.apply(s2, op, upto=k)
+                yield ("inside-write", f"inside raw write #{i} after {k} of {n} bytes", fsshim.VFS.files_of(s2), ops)
+        fsshim.VFS.apply(st, op)
+        yield (f"after-{op[0]}", f"after raw operation #{i} {op[0]}", fsshim.VFS.files_of(st), ops)
+    if fsshim.VFS.files_of(st) != final:
         raise core.HarnessError("replaying the raw operation log does not reproduce the final file system")
 
 
